@@ -66,7 +66,7 @@ KF_EVENTS = [{"id": 0, "ty": "B", "f": {"s": ("s", 2)}}, {"id": 1, "ty": "A", "f
 def cases_for(run):
     rng = run.rng
     cases = [(KF_PROG, KF_EVENTS)]      # the known-finding witness of Sase/Ref.v is replayed on every run
-    n = 260 if run.tier == "quick" else 8000
+    n = 260 if run.tier == "quick" else 3000
     for i in range(n):
         prog = S.gen_prog(rng, allow_all=False, allow_self=False)
         if i % 3 == 0 and prog["negs"]:
